@@ -66,8 +66,14 @@ Inductive case :=
 (* one encrypt/decrypt: keyset at encryption time, keyset at decryption time, alteration, REAL nonce and cipher,
    message length, the byte string that real Tink accepted directly, service accepted *)
 | CAead (enc_ks dec_ks : keyset) (alt : aalt) (nonce cipher : bytes) (mlen : nat) (joined : bytes) (acc : bool)
-(* one MAC: key id, prefix type, other key / other data, alteration, REAL tag, accepted *)
-| CMac (kid : N) (pt : ptype) (okey odata : bool) (alt : salt) (tag : bytes) (acc : bool)
+(* one MAC: computing key (Tink id, prefix type), verifying keyset, other data, alteration, REAL tag, accepted *)
+| CMac (ck : N * ptype) (vks : list (N * ptype)) (odata : bool) (alt : salt) (tag : bytes) (acc : bool)
+(* one sign/verify over rotated keysets: table row, signing key (Tink id, prefix type), the verifying public keyset,
+   other message, alteration, REAL signature, accepted *)
+| CSigKs (kt : nat) (sk : N * ptype) (vks : list (N * ptype)) (omsg : bool) (alt : salt) (sig : bytes) (acc : bool)
+(* BBS+ multi-message: identity classes of the REAL generators h0, h_1.. (first position with the same group element),
+   identities of the signed vector (blinding first) and of the presented one, accepted *)
+| CBbs (classes : list nat) (signed presented : list Z) (acc : bool)
 (* signature/verifier.PublicKeyVerifier on the exported public key: curve byte size, key signs DER or P1363, other key /
    other message, alteration, REAL signature, (r,s) obtained independently, accepted *)
 | CPkv (n : nat) (der : bool) (okey omsg : bool) (alt : salt) (sig : bytes) (rs : option (Z * Z)) (acc : bool).
@@ -125,13 +131,30 @@ Definition check_aead (eks dks : keyset) (alt : aalt) (nonce cipher : bytes) (ml
       && bytes_eqb (prefix_of e ++ nonce ++ cipher) joined
   end.
 
-Definition check_mac (kid : N) (pt : ptype) (okey odata : bool) (alt : salt) (tag : bytes) (acc : bool) : bool :=
-  let k := {| s_id := kid; s_pt := pt; s_mat := 7; s_enc := EncOpaque |} in
-  let kv := {| s_id := kid; s_pt := pt; s_mat := (if okey then 8 else 7); s_enc := EncOpaque |} in
+Definition mk_skey (e : senc) (x : N * ptype) : skey := {| s_id := fst x; s_pt := snd x; s_mat := fst x; s_enc := e |}.
+
+Definition check_mac (ck : N * ptype) (vks : list (N * ptype)) (odata : bool) (alt : salt) (tag : bytes) (acc : bool) : bool :=
+  let k := mk_skey EncOpaque ck in
   let t := svc_mac inst_mac k [3] in
-  Bool.eqb (svc_verify_mac inst_mac [kv] (alter t alt) (if odata then [4] else [3])) acc
+  Bool.eqb (svc_verify_mac inst_mac (map (mk_skey EncOpaque) vks) (alter t alt) (if odata then [4] else [3])) acc
   && bytes_eqb (firstn (length (sprefix k)) tag) (sprefix k)
   && Nat.eqb (length tag) (length (sprefix k) + 32).
+
+Definition check_sigks (kt : nat) (sk : N * ptype) (vks : list (N * ptype)) (omsg : bool) (alt : salt) (sig : bytes) (acc : bool) : bool :=
+  match row kt with
+  | None => false
+  | Some rw =>
+      let opaque := senc_eqb (kt_enc rw) EncOpaque in
+      let k := mk_skey (kt_enc rw) sk in
+      (match svc_sign (inst_sign opaque) k 3 5 with
+       | Some sg => Bool.eqb (svc_verify (inst_verify opaque) (map (mk_skey (kt_enc rw)) vks) (alter sg alt) (if omsg then 4 else 3)) acc
+       | None => false
+       end)
+      && bytes_eqb (firstn (length (sprefix k)) sig) (sprefix k)
+  end.
+
+Definition check_bbs (classes : list nat) (signed presented : list Z) (acc : bool) : bool :=
+  Bool.eqb (bbs_accepts (fun i => nth i classes 0%nat) (length classes) signed presented) acc.
 
 Definition curve_bits (n : nat) : N := match n with 66%nat => 519 | _ => 8 * N.of_nat n - 1 end.
 
@@ -163,7 +186,9 @@ Definition check_case (c : case) : bool :=
   | CDecode e b go => opt_rs_eqb (sval_rs (dec_sig e b)) go
   | CSig kt created kid pt vm okey omsg alt sig rs acc => check_sig kt created kid pt vm okey omsg alt sig rs acc
   | CAead eks dks alt nonce cipher mlen joined acc => check_aead eks dks alt nonce cipher mlen joined acc
-  | CMac kid pt okey odata alt tag acc => check_mac kid pt okey odata alt tag acc
+  | CMac ck vks odata alt tag acc => check_mac ck vks odata alt tag acc
+  | CSigKs kt sk vks omsg alt sig acc => check_sigks kt sk vks omsg alt sig acc
+  | CBbs classes signed presented acc => check_bbs classes signed presented acc
   | CPkv n der okey omsg alt sig rs acc => check_pkv n der okey omsg alt sig rs acc
   end.
 
